@@ -110,6 +110,8 @@ def run(ctx):
     if ctx.replay:
         return streams.replay(ctx, "alloc")
     scns = scenarios(ctx) + edge_lines(ctx)
+    import drift
+    drift.with_steps(scns, every=max(1, -(-len(scns) // (400 if ctx.quick else 5000))))
     exe = vlib.build(ctx, "alloc", ["rec"])["rec"]
     files = streams.run_rec(ctx, exe, scns, "c01")
     execs, events, viols = streams.judge_obs(ctx, files, PROPS)
@@ -119,7 +121,9 @@ def run(ctx):
         if v["clause"] == "C01:NoSanitizerReport":
             v["sites"] = [v.get("detail", "")]
     ctx.violations += viols
+    acc = drift.check(ctx, files)
     vlib.finish(ctx, "exploration", {
+        "model_acceptance": acc,
         "evaluations": execs, "distinct_nontrivial": len({s.text().split("\n", 1)[1] for s in scns if s.nbytes() > 0}),
         "events_judged": events, "traces_validated_against_impl": execs,
         "rule": "histories = corpus captures (original, 1-byte, random cuts), byte-mutated captures and the exchange library, each under a random point of the "
